@@ -145,7 +145,7 @@ def main():
         for mn, mx in [(0, 0), (6, 0), (0, 7), (6, 8), (1, 1), (8, 8), (0, 1), (22, 0), (5, 1100)]:
             grid.append({'min': mn, 'max': mx})
         grid += [{'terminals': ['A', 'D']}, {'terminals': ['A', 'D', 'M']}, {'terminals': ['Y', 'A']}, {'regex': ['A']}, {'regex': ['^A', 'D']},
-                 {'regex': ['[0-9]{2}']}, {'min': 6, 'max': 10, 'terminals': ['A', 'D', 'O', 'M'], 'regex': ['D']}, {'min': 4, 'terminals': ['A', 'D', 'X', 'Y']}]
+                 {'regex': ['[0-9]{2}']}, {'regex': ['^A\\d+D\\d+$']}, {'regex': ['^[A-Z]\\d', '\\d$']}, {'min': 6, 'max': 10, 'terminals': ['A', 'D', 'O', 'M'], 'regex': ['D']}, {'min': 4, 'terminals': ['A', 'D', 'X', 'Y']}]
         if a.tier != 'quick':
             grid += [{'min': mn, 'max': mx} for mn in range(0, 14) for mx in (0, 3, 6, 9, 12, 15) if mx == 0 or mn <= mx]
         for base in ('HAND', 'TRAINED'):
